@@ -66,7 +66,9 @@ type workerResult struct {
 // fixedZones: process zones that are not IANA zones - time.FixedZone with a name of the
 // application's choosing (spelled "fixed|<name>|<seconds east>"). The JSON form carries that name;
 // whatever it looks like, the library's own encoding must decode, to the same instant.
-var fixedZones = []string{"fixed|UTC+3|10800", "fixed|GMT+03:00|10800", "fixed|Office Time|3600", "fixed|utc|0", "fixed|local|-18000", "fixed|X|7200", "fixed|Zone 51|-12600", "fixed|EST5EDT|-18000", "fixed|Europe/Berlin|3600", "fixed|+03|10800", "fixed|UTC-03:30|-12600", "fixed|\u6771\u4eac|32400"}
+var fixedZones = []string{"fixed|UTC+3|10800", "fixed|GMT+03:00|10800", "fixed|Office Time|3600", "fixed|utc|0", "fixed|local|-18000", "fixed|X|7200", "fixed|Zone 51|-12600", "fixed|EST5EDT|-18000", "fixed|Europe/Berlin|3600", "fixed|+03|10800", "fixed|UTC-03:30|-12600", "fixed|\u6771\u4eac|32400",
+	// names with characters that JSON and Go quote differently (controls, DEL, non-printable and invalid UTF-8), quotes, backslashes
+	"fixed|A\aB|3600", "fixed|A\x01B|3600", "fixed|A\x7fB|3600", "fixed|A\vB|-3600", "fixed|\U000e0001|7200", "fixed|A\"B|3600", "fixed|A\\B|3600", "fixed|A\xffB|3600", "fixed|A\tB|3600", "fixed|<A&B>|3600", "fixed|\u2028|3600"}
 
 func loadZone(name string) (*time.Location, error) {
 	if strings.HasPrefix(name, "fixed|") {
